@@ -578,6 +578,7 @@ func c02TopFrames(block []string) string {
 
 func runC02(cases string, res *Result) {
 	c02RegisterDuringLookup(res)
+	c02PolicyIsOnlyRead(res)
 	if !c02RaceEnabled {
 		res.add(Finding{Kind: "disagreement", Where: "runner", Case: map[string]string{"k": "build"},
 			Detail: "the runner was not built with -race (props/C02.json must say \"race\": true): the runtime part of C02 is not observed"})
